@@ -70,19 +70,39 @@ func vStakingLifecycle(issued bool) {
 	amount := uint64(rt.NondetU32()) + 1
 	dtx := wire.NewMsgTx()
 	dtx.AddTxIn(wire.NewTxIn(&wire.OutPoint{Hash: vHash(), Index: rt.NondetU32()}, nil))
+	// the deposit is output di of its transaction (a payment to a stranger may come first), and the withdrawal spends
+	// it with input wi (an input spending a stranger's coin may come first): the history is keyed by the deposit's
+	// output index, not by a position in the spending transaction
+	di, wi := uint32(0), 0
+	if rt.NondetBool() {
+		di = 1
+		dtx.AddTxOut(wire.NewTxOut(7, vP2WSH(rt.NondetBytes(32))))
+	}
+	if rt.NondetBool() {
+		wi = 1
+	}
 	dtx.AddTxOut(wire.NewTxOut(int64(amount), script))
 	rt.Assume(!blockchain.IsCoinBaseTx(dtx))
 	vTxIDSeeds = []wire.Hash{vHash(), vHash()}
 	D := &TxRecord{MsgTx: *dtx, TxLoc: &wire.TxLoc{TxStart: 100, TxLen: 50}}
 	D.Hash = D.MsgTx.TxHash()
-	D.RelevantTxOut = []*RelevantMeta{{Index: 0, PkScript: ps, WalletId: verifWID}}
+	D.RelevantTxOut = []*RelevantMeta{{Index: int(di), PkScript: ps, WalletId: verifWID}}
 	wtx := wire.NewMsgTx()
-	wtx.AddTxIn(wire.NewTxIn(&wire.OutPoint{Hash: D.Hash, Index: 0}, nil))
+	if wi == 1 {
+		wtx.AddTxIn(wire.NewTxIn(&wire.OutPoint{Hash: vHash(), Index: rt.NondetU32()}, nil))
+	}
+	wtx.AddTxIn(wire.NewTxIn(&wire.OutPoint{Hash: D.Hash, Index: di}, nil))
 	wtx.AddTxOut(wire.NewTxOut(int64(amount), vP2WSH(shOut)))
 	W := &TxRecord{MsgTx: *wtx, TxLoc: &wire.TxLoc{TxStart: 200, TxLen: 50}}
 	W.Hash = W.MsgTx.TxHash()
-	rt.Assume(W.Hash != D.Hash && D.Hash != dtx.TxIn[0].PreviousOutPoint.Hash)
-	W.RelevantTxIn = []*RelevantMeta{{Index: 0, PkScript: ps, WalletId: verifWID}}
+	rt.Assume(W.Hash != D.Hash && D.Hash != dtx.TxIn[0].PreviousOutPoint.Hash && wtx.TxIn[0].PreviousOutPoint.Hash != dtx.TxIn[0].PreviousOutPoint.Hash)
+	if wi == 1 {
+		rt.Assume(wtx.TxIn[0].PreviousOutPoint.Hash != D.Hash && wtx.TxIn[0].PreviousOutPoint.Hash != W.Hash)
+	}
+	// the relevance filter reports no inputs for a coinbase-shaped transaction (filterTx), so the apply step never
+	// sees one with a relevant input
+	rt.Assume(!blockchain.IsCoinBaseTx(wtx))
+	W.RelevantTxIn = []*RelevantMeta{{Index: wi, PkScript: ps, WalletId: verifWID}}
 	W.RelevantTxOut = []*RelevantMeta{{Index: 0, PkScript: vPk(vP2WSH(shOut)), WalletId: verifWID}}
 	b1 := &BlockMeta{Height: rt.NondetU64(), Hash: vHash(), Loc: &database.BlockLoc{File: 1, Offset: 2, Length: 3}}
 	rt.Assume(b1.Height >= 1 && b1.Height < vMaxHeight-2)
@@ -127,7 +147,7 @@ func vStakingLifecycle(issued bool) {
 	// 1. the deposit confirms
 	rt.Assert(apply(D, b1) == nil, "deposit-applied")
 	setTip(b1)
-	ck := keyCredit(&D.Hash, 0, b1)
+	ck := keyCredit(&D.Hash, di, b1)
 	cv := s.c.Lookup(ck)
 	rt.Assert(len(cv) == 45, "deposit-coin-stored")
 	if len(cv) == 45 {
@@ -136,23 +156,23 @@ func vStakingLifecycle(issued bool) {
 		rt.Assert(readCreditValue(cv, &c) == nil && c.flags.Class == ClassStakingUtxo && !c.flags.Spent && uint64(c.maturity) == fp+1 && c.amount.UintValue() == amount && bytes.Equal(c.scriptHash, sh), "coin-is-a-staking-coin-maturing-after-the-frozen-period")
 	}
 	h1 := history(false)
-	rt.Assert(len(h1) == 1 && h1[0].txhash == D.Hash && h1[0].vout == 0 && h1[0].blockHeight == b1.Height && !h1[0].withdrawn && !h1[0].isBinding, "deposit-listed-exactly-once")
+	rt.Assert(len(h1) == 1 && h1[0].txhash == D.Hash && h1[0].vout == di && h1[0].blockHeight == b1.Height && !h1[0].withdrawn && !h1[0].isBinding, "deposit-listed-exactly-once")
 	// the staking-form address is recorded as used from the deposit's height (C12: used flag)
 	rt.Assert(len(s.a.Ents) == 1 && readAddressHeight(s.a.Ents[0].V) == b1.Height, "staking-address-marked-used-at-the-deposit-height")
 	// 2. the withdrawal confirms
 	rt.Assert(apply(W, b2) == nil, "withdrawal-applied")
 	setTip(b1, b2)
 	h2all, h2live := history(false), history(true)
-	rt.Assert(len(h2all) == 1 && h2all[0].txhash == D.Hash && h2all[0].withdrawn && len(h2live) == 0, "deposit-shown-withdrawn-exactly-once")
+	rt.Assert(len(h2all) == 1 && h2all[0].txhash == D.Hash && h2all[0].vout == di && h2all[0].withdrawn && len(h2live) == 0, "deposit-shown-withdrawn-exactly-once")
 	rt.Assert(len(s.a.Ents) == 2 && vUsedAddresses(s) == 2, "withdrawal-target-address-marked-used")
 	// 3. the withdrawal's block is reorganised away
 	err := mwdb.Update(s.db, func(dbtx mwdb.DBTransaction) error { return s.tx.Rollback(dbtx, b2.Height) })
 	rt.Assert(err == nil, "withdrawal-block-rolled-back")
 	setTip(b1)
 	h3 := history(true)
-	rt.Assert(len(h3) == 1 && h3[0].txhash == D.Hash && !h3[0].withdrawn && h3[0].blockHeight == b1.Height && len(history(false)) == 1, "deposit-not-withdrawn-again")
+	rt.Assert(len(h3) == 1 && h3[0].txhash == D.Hash && h3[0].vout == di && !h3[0].withdrawn && h3[0].blockHeight == b1.Height && len(history(false)) == 1, "deposit-not-withdrawn-again")
 	cv = s.c.Lookup(ck)
-	rt.Assert(len(cv) == 45 && cv[8]&1 == 0 && s.u.Lookup(canonicalUnspentKey(verifWID, &D.Hash, 0)) != nil, "deposit-coin-unspent-again")
+	rt.Assert(len(cv) == 45 && cv[8]&1 == 0 && s.u.Lookup(canonicalUnspentKey(verifWID, &D.Hash, di)) != nil, "deposit-coin-unspent-again")
 	rt.Assert(vUsedAddresses(s) == 1, "only-the-staking-address-is-still-used")
 	// 4. the deposit's block is reorganised away
 	err = mwdb.Update(s.db, func(dbtx mwdb.DBTransaction) error { return s.tx.Rollback(dbtx, b1.Height) })
@@ -165,7 +185,17 @@ func vStakingLifecycle(issued bool) {
 		}
 		rt.Reach("issued")
 	}
-	rt.Assert(len(history(false)) == 0 && s.c.Lookup(ck) == nil && s.u.Lookup(canonicalUnspentKey(verifWID, &D.Hash, 0)) == nil, "deposit-left-the-confirmed-history")
+	rt.Assert(len(history(false)) == 0 && s.c.Lookup(ck) == nil && s.u.Lookup(canonicalUnspentKey(verifWID, &D.Hash, di)) == nil, "deposit-left-the-confirmed-history")
+	// the deposit is a pending transaction again: the pending history lists it, once, under its own output index
+	npend := 0
+	for _, e := range s.LG.Ents {
+		g := &gameHistory{}
+		rt.Assert(len(e.K) == 80 && readGameHistory(true, e.K, e.V, g) == nil, "pending-history-record-decodes")
+		if g.txhash == D.Hash && g.vout == di && g.walletId == verifWID && !g.withdrawn && !g.isBinding {
+			npend++
+		}
+	}
+	rt.Assert(npend == 1 && len(s.LG.Ents) == 1, "rolled-back-deposit-listed-once-in-the-pending-history-under-its-output-index")
 	rt.Reach("end")
 	if issued {
 		// last, so that the known finding recorded for this assertion does not hide the checks above
